@@ -134,3 +134,15 @@ func (e *Engine) embKind(name string) int {
 	e.embKinds[name] = n
 	return n
 }
+
+// ghostMonotone: every effect on the ghost set assigns true, so the set only grows.
+func (e *Engine) ghostMonotone(g string) bool {
+	for _, c := range e.cs.Funcs {
+		for _, ef := range c.Effects {
+			if ef.Ghost == g && ef.Val.Op != "true" {
+				return false
+			}
+		}
+	}
+	return true
+}
